@@ -69,6 +69,35 @@ def ACur.write (al : Nat) (a : ACur) (buf : B) : ACur × Out :=
     let get' := fun i => if a.pos ≤ i ∧ i < a.pos + len then buf.getD (i - a.pos) 0 else a.get i
     ({ cap := cap', get := get', pos := a.pos + len, len := max a.len (a.pos + len) }, .wrote len)
 
+/-- The same with the written bytes held in an array (constant-time indexing): what the compiled driver runs, so that
+    writes of hundreds of kilobytes stay linear. Proved equal to `ACur.write`, which the theorems are about. -/
+def ACur.writeImpl (al : Nat) (a : ACur) (buf : B) : ACur × Out :=
+  let len := min buf.length (usizeMax - a.pos)
+  if buf.length ≠ 0 ∧ len = 0 then (a, .invalidInput)
+  else if len < buf.length then (a, .panic)
+  else
+    let cap' := if a.cap < a.pos + len then ceilDiv (a.pos + len) al * al else a.cap
+    let arr := buf.toArray
+    let get' := fun i => if a.pos ≤ i ∧ i < a.pos + len then arr.getD (i - a.pos) 0 else a.get i
+    ({ cap := cap', get := get', pos := a.pos + len, len := max a.len (a.pos + len) }, .wrote len)
+
+@[csimp] theorem ACur.write_eq_writeImpl : @ACur.write = @ACur.writeImpl := by
+  funext al a buf
+  simp only [ACur.write, ACur.writeImpl]
+  split
+  · rfl
+  · split
+    · rfl
+    · congr 2
+      funext i
+      split
+      · simp only [Array.getD, List.getD, List.size_toArray]
+        by_cases h : i - a.pos < buf.length
+        · simp [h, List.getElem?_eq_getElem h]
+        · have : buf.length ≤ i - a.pos := by omega
+          simp [h, List.getElem?_eq_none this]
+      · rfl
+
 /-- `read` into a buffer of `n` bytes -/
 def ACur.read (a : ACur) (n : Nat) : ACur × Out :=
   if a.pos ≥ a.len then (a, .bytes [])
